@@ -553,6 +553,7 @@ func firstOutput(c Case) []byte {
 var reNulRef = regexp.MustCompile(`&#(0+|[xX]0+);`)
 var reAwait = regexp.MustCompile(`\bawait\b`)
 var reDelimBeforeBrace = regexp.MustCompile(`[{;]\s*\*\s*\}`)
+var reDashedFunctionDecl = regexp.MustCompile(`[{;]\s*--[-\w]*\(`)
 var reElseLexical = regexp.MustCompile(`else\s*\{[^{}]*\b(let|const|class)\b`)
 
 func matchKnown(c Case, err error) string {
@@ -602,6 +603,19 @@ func matchKnown(c Case, err error) string {
 	// processing instructions, then drops everything up to the next ?> or the end of the input
 	if (c.Kind == "svg" || c.Kind == "xml") && strings.Contains(msg, "became malformed") && rePIWithGT.Match(c.src()) {
 		return "C09-svg-pi-with-gt"
+	}
+	// a dashed function at the start of a declaration (--a(b)): taken for a custom property, its name is dropped
+	if (c.Kind == "css" || c.Kind == "html" || c.Kind == "svg") && strings.Contains(msg, "unbalanced brackets") && reDashedFunctionDecl.Match(c.src()) {
+		return "C09-css-dashed-function-declaration"
+	}
+	// input that is not a valid program (V8 rejects it for both goals) but is accepted by the lenient parser, e.g. an
+	// invalid assignment target in parentheses: (a!=b)||=c
+	if c.Kind == "js" && strings.Contains(msg, "rejects its own output") && utf8.Valid(c.src()) {
+		s1, e1 := jsValid(string(c.src()), false)
+		s2, e2 := jsValid(string(c.src()), true)
+		if e1 == nil && e2 == nil && !s1 && !s2 {
+			return "C09-js-invalid-program-accepted"
+		}
 	}
 	// invalid UTF-8: the lexer of the dependency takes a lead byte plus the following byte as one identifier
 	// character at one position and not at another
